@@ -4,3 +4,4 @@ import QecVerif.Props.C07.Toric
 import QecVerif.Props.C07.RotatedToric
 import QecVerif.Props.C07.RotatedPlanar
 import QecVerif.Props.C07.Color666
+import QecVerif.Props.C07.Normaliser
